@@ -397,7 +397,7 @@ class Report:
             print('KNOWN-FINDING: property=%s %s (%s)' % (self.prop, k[2], o.key))
         for o in new_viol[:50]:
             print('VIOLATION property=%s replay=%s' % (self.prop, o.replay or 'none'))
-            print('  ' + o.desc + ' :: ' + (o.reason or ''))
+            print('  ' + o.desc + ' :: ' + ((o.reason or '') if len(o.reason or '') < 1500 else (o.reason[:1400] + ' ... [%d characters; full text in the replay case]' % len(o.reason))))
         if os.environ.get('PHQV_VERBOSE'):
             for o in inc:
                 print('  INCONCLUSIVE %s :: %s' % (o.oid, (o.reason or '')[:300]))
